@@ -108,9 +108,12 @@ class MeshLine1(MeshSimplex, Mesh):
                       np.arange(self.t.shape[1])]
 
         def finder(x):
-            xin = x.copy()  # bring endpoint inside for np.digitize
-            xin[x == self.p[0, ix[-1]]] = self.p[0, ix[-2:]].mean()
-            elems = np.nonzero(ix[np.digitize(xin, self.p[0, ix])][:, None]
+            k = np.digitize(x, self.p[0, ix])
+            # a point on the right end of an element belongs to that element
+            # (also where the next element does not start at the same point)
+            onright = np.isin(x, self.p[0, maxt])
+            k[onright] = np.digitize(x[onright], self.p[0, ix], right=True)
+            elems = np.nonzero(ix[k][:, None]
                                == maxt)[1].astype(np.int32)
             if len(elems) < len(x):
                 raise ValueError("Point is outside of the mesh.")
